@@ -24,9 +24,13 @@ func cutAt(b []byte, cuts []int) [][]byte {
 }
 
 // segCase runs one delivery through Client.SendMultiple; returns "<result> ; disc=<0|1>"
+// segUseChecksum is the client's UseChecksum option for the following runs (nil = default); it governs what the client
+// sends, never what it accepts
+var segUseChecksum interface{}
+
 func segRun(bufBlocks uint16, plain []byte, cuts []int) string {
 	key := "segkey"
-	cl, err := rscp.NewClient(rscp.ClientConfig{Address: "a", Username: "u", Password: "p", Key: key, ReceiveBufferBlockSize: bufBlocks})
+	cl, err := rscp.NewClient(rscp.ClientConfig{Address: "a", Username: "u", Password: "p", Key: key, ReceiveBufferBlockSize: bufBlocks, UseChecksum: segUseChecksum})
 	if err != nil {
 		return "newclient-error"
 	}
@@ -96,6 +100,13 @@ func segCase(cw *caseWriter, bufBlocks uint16, plain []byte, cuts []int, label s
 	if strings.HasPrefix(got, "panic") || strings.HasPrefix(got, "hang") {
 		prop = "FAIL * client " + strings.SplitN(got, " ", 2)[0] + " in receive"
 	}
+	if strings.Contains(label, "bad-crc") && strings.HasPrefix(got, "ok ") {
+		prop = "FAIL C04 a reply with a wrong checksum is returned to the caller: " + trunc(got, 100)
+	}
+	if prop != "pass" && strings.HasPrefix(prop, "FAIL C07") && strings.HasPrefix(label, "frame ") {
+		// a well-formed reply of a scheme-following peer that the client does not return under this delivery
+		prop += " ;; FAIL C06 the client cannot decode the reply of a peer that follows the encryption scheme under this delivery"
+	}
 	cw.add(fmt.Sprintf("recv %d %s", bufBlocks, strings.Join(hs, " ")), got, "N seg "+label, prop)
 }
 
@@ -143,17 +154,36 @@ func init() {
 			case 4:
 				plain = plainFrame(nil, true, g.time())
 				kind = "empty-frame"
+			case 5:
+				// the reply followed at once by a second frame (what a device with a pending notification may do)
+				second := plainFrame([]rscp.Message{{Tag: rscp.BAT_INDEX, DataType: rscp.UInt16, Value: uint16(3)}}, true, g.time())
+				plain = append(append([]byte{}, plain...), second...)
+				kind = "frame+second-frame"
+			case 6:
+				junk := g.bytes(32 * (1 + g.pick(2)))
+				junk[0] |= 1
+				plain = append(append([]byte{}, plain...), junk...)
+				kind = "frame+junk-blocks"
+			}
+			surplus := kind == "frame+second-frame" || kind == "frame+junk-blocks"
+			if kind == "bad-crc" && i%2 == 0 {
+				segUseChecksum = false
+				kind = "bad-crc client-without-checksums"
 			}
 			base := ""
+			basep := &base
+			if surplus {
+				basep = nil // what follows the reply is not padding: the outcome may depend on where the transport cuts
+			}
 			// one piece into a buffer that holds it
-			segCase(cw, 2049, plain, nil, kind+" one-piece blocks="+fmt.Sprint(len(plain)/32), &base)
+			segCase(cw, 2049, plain, nil, kind+" one-piece blocks="+fmt.Sprint(len(plain)/32), basep)
 			bb := bufs[g.pick(len(bufs))]
 			// every single cut (sampled unless thorough or small)
 			for c := 1; c < len(plain); c++ {
 				if !thorough && len(plain) > 96 && g.pick(len(plain)/24) != 0 {
 					continue
 				}
-				segCase(cw, bufs[g.pick(len(bufs))], plain, []int{c}, kind+" cut1", &base)
+				segCase(cw, bufs[g.pick(len(bufs))], plain, []int{c}, kind+" cut1", basep)
 			}
 			// pairs of cuts
 			for k := 0; k < 12; k++ {
@@ -161,7 +191,7 @@ func init() {
 				if a > b {
 					a, b = b, a
 				}
-				segCase(cw, bb, plain, []int{a, b}, kind+" cut2", &base)
+				segCase(cw, bb, plain, []int{a, b}, kind+" cut2", basep)
 			}
 			// uniform piece sizes
 			for _, sz := range []int{1, 2, 7, 20, 31, 32, 33, 50, 63, 64, 65, 96, 1 + g.pick(96)} {
@@ -169,7 +199,7 @@ func init() {
 				for c := sz; c < len(plain); c += sz {
 					cuts = append(cuts, c)
 				}
-				segCase(cw, bufs[g.pick(len(bufs))], plain, cuts, fmt.Sprintf("%s uniform=%d", kind, sz), &base)
+				segCase(cw, bufs[g.pick(len(bufs))], plain, cuts, fmt.Sprintf("%s uniform=%d", kind, sz), basep)
 			}
 			// random multi-cut patterns
 			for k := 0; k < 6; k++ {
@@ -177,8 +207,42 @@ func init() {
 				for c := 1 + g.pick(40); c < len(plain); c += 1 + g.pick(70) {
 					cuts = append(cuts, c)
 				}
-				segCase(cw, bufs[g.pick(len(bufs))], plain, cuts, kind+" random-cuts", &base)
+				segCase(cw, bufs[g.pick(len(bufs))], plain, cuts, kind+" random-cuts", basep)
 			}
+			segUseChecksum = nil
+		}
+		// fixed cases that every run contains: a reply with a wrong checksum (client with and without the checksum option),
+		// a reply followed at once by a second frame or by junk — for buffers of 1, 2, 4 and 64 blocks, in one piece,
+		// cut inside the first block, cut inside the second block, and byte by byte
+		{
+			reply := []rscp.Message{{Tag: rscp.INFO_SERIAL_NUMBER, DataType: rscp.CString, Value: "S10-123456789012345678901234567890123456789"}, {Tag: rscp.EMS_POWER_PV, DataType: rscp.Int32, Value: int32(4500)}}
+			good := plainFrame(reply, true, g.time())
+			bad := append([]byte{}, good...)
+			l := int(binary.LittleEndian.Uint16(bad[16:]))
+			bad[18+7+3] ^= 0x04 // one bit of the payload
+			_ = l
+			second := plainFrame([]rscp.Message{{Tag: rscp.BAT_INDEX, DataType: rscp.UInt16, Value: uint16(3)}}, true, g.time())
+			junk := make([]byte, 32)
+			junk[0], junk[31] = 0x7f, 1
+			streams := []struct {
+				name  string
+				plain []byte
+				crc   interface{}
+			}{{"bad-crc", bad, nil}, {"bad-crc client-without-checksums", bad, false}, {"frame client-without-checksums", good, false},
+				{"frame+second-frame", append(append([]byte{}, good...), second...), nil}, {"frame+junk-blocks", append(append([]byte{}, good...), junk...), nil}}
+			for _, st := range streams {
+				segUseChecksum = st.crc
+				var bytewise []int
+				for c := 1; c < len(st.plain); c++ {
+					bytewise = append(bytewise, c)
+				}
+				for _, bb := range []uint16{1, 2, 4, 64} {
+					for _, cuts := range [][]int{nil, {20}, {40}, {32}, {len(good)}, {20, len(good) + 5}, bytewise} {
+						segCase(cw, bb, st.plain, cuts, fmt.Sprintf("%s fixed cuts=%d", st.name, len(cuts)), nil)
+					}
+				}
+			}
+			segUseChecksum = nil
 		}
 		// a reply longer than 2050 reads when it trickles in byte by byte
 		{
